@@ -188,6 +188,9 @@ func genOps(rng *rand.Rand, eff, raw int, withReads bool) []op {
 			ops = append(ops, op{opWrite, []int{s}})
 		case r < 58:
 			k := 1 + rng.Intn(4)
+			if rng.Intn(8) == 0 {
+				k = 15 + rng.Intn(30) // long vectors: what the background sender hands over after a backlog
+			}
 			sz := make([]int, k)
 			for j := range sz {
 				if rng.Intn(4) != 0 {
